@@ -516,6 +516,12 @@ def judge(ctx, tx, after, region, step, case):
             if alines[aln - 1] != blines[ln - 1] and blines[ln - 1] in alines[max(0, aln - 40):aln + 40]:
                 ctx.count('line_alignment_ambiguous(identical text inserted nearby)')
                 continue
+            if alines[aln - 1] != blines[ln - 1] and ln >= 2 and blines[ln - 2].rstrip().endswith('\\') and alines[aln - 1].lstrip() == blines[ln - 1].lstrip() \
+                    and step['kind'] in ('stmt', 'handler', 'case'):
+                # a continuation line of a ';'-joined logical line: when a statement edit splits that logical line, the rest starts a line of its
+                # own and must take the block's indentation (continuation lines may be indented arbitrarily, statement lines may not)
+                ctx.count('continuation_line_reindented_after_logical_line_split(required by the grammar)')
+                continue
             if alines[aln - 1] != blines[ln - 1]:
                 if r0 <= tx.ot[ln - 1] < r1 or r0 < tx.ot[ln] <= r1:
                     continue   # partly inside the allowed region (separator / trailing whitespace next to the element)
